@@ -36,6 +36,8 @@ type Profile struct {
 	Snaps    bool // read ops may address snapshots
 	Nested   bool // visits may carry nested ops
 	ReopenNoDrop bool // only Close+Reopen (reference counting needs Close)
+	PlainNames bool // always the plain collection names (engines that address "a","b" literally)
+	NestedKinds []string // ops a visitor callback may run (default nestedKinds)
 	Stores   int  // max extra unrelated stores
 	EndOnly  int  // percentage of cases that compare only at the end
 	Monotone int  // percentage of cases drawn without lowering overwrites
@@ -223,7 +225,11 @@ func (p *Profile) genOpKind(t *rapid.T, kind string, gs *genState, depth int) Op
 			o.At = rapid.IntRange(0, 3).Draw(t, "at")
 			n := rapid.IntRange(1, 3).Draw(t, "nsub")
 			for i := 0; i < n; i++ {
-				k := nestedKinds[uni(t, len(nestedKinds), "subkind")]
+				nk := nestedKinds
+				if p.NestedKinds != nil {
+					nk = p.NestedKinds
+				}
+				k := nk[uni(t, len(nk), "subkind")]
 				o.Sub = append(o.Sub, p.genOpKind(t, k, gs, depth+1))
 			}
 		}
@@ -322,7 +328,14 @@ func GenCase(p *Profile) *rapid.Generator[Case] {
 		}
 		if p.Cmps {
 			c.Cfg.DefCmp = uni(t, NumCmp, "defcmp")
+			// how an application re-supplies its comparators after a load: through the
+			// KeyCompareForCollection callback, or by SetCollection(name, cmp) afterwards
+			c.Cfg.CmpViaSet = uni(t, 3, "cmpviaset") == 0
 		}
+		if !p.PlainNames && uni(t, 100, "nameset") < 40 {
+			c.Cfg.NameSet = 1 + uni(t, len(NameSets)-1, "namesetidx")
+		}
+		curNameSet = c.Cfg.NameSet
 		if p.Stores > 0 {
 			c.Cfg.Stores = rapid.IntRange(0, p.Stores).Draw(t, "stores")
 		}
